@@ -174,6 +174,7 @@ class World:
         self.initial = None
         self.ever_ips = {}
         self.dead_ports = set()
+        self.faulted = False   # a kill or an injected failure has happened
         self.unprocessed_del = set()   # deletions the service has not seen
         self.raced = set()     # ids requested again before that (provenance)
 
@@ -207,6 +208,8 @@ class World:
         finally:
             if self.seam.failed:
                 self.faults['command_failed'] += 1
+            if self.seam.failed or self.seam.crashed:
+                self.faulted = True
             self.seam.end()
         self.fps.append(logmod.fingerprint(self.abstract()))
 
@@ -761,7 +764,7 @@ class World:
                 del self.req[rid]
         held_by = {}
         for ip, rid in sorted(vips.items()):
-            if rid in held_by and rid in live:
+            if rid in held_by and rid in live and not self.faulted:
                 self.fail('C14:netsvc-request-holds-two-ips' + (
                     ':id-requested-again-before-its-delete-was-processed'
                     if rid in self.raced else ''),
@@ -1699,7 +1702,12 @@ class NetSim(enginemod.Engine):
         log.ev('seed', seed, prop)
         seam = fsseam.Seam()
         seam.make_error = _mk_error
-        seam.on_step = lambda kind, what: log.ev('step', kind, what)
+        if keep_log:
+            # steps are shown in a kept log for diagnosis but are not part of
+            # the digest: their order inside one call can depend on the
+            # iteration order of a set in the repo code (PYTHONHASHSEED)
+            seam.on_step = lambda kind, what: log.lines.append(
+                logmod.canon(['step', kind, what]))
         patches = fsseam.Patches()
         clock = clockmod.Clock(config['start'])
         root = fsseam.make_scratch()
